@@ -37,4 +37,4 @@ class ContactAttributes(object):
 
     @context_info.setter
     def context_info(self, value):
-        self.context_info = value
+        self._context_info = value
